@@ -84,8 +84,12 @@ func (cs ChainStorage) FindConversionChain(crdName string, rule Rule) []Rule {
 					continue
 				}
 
-				//nolint
-				newPath := append(chain.PathsCache[ruleToCheck], nextRule)
+				// Copy the cached path: appending in place would share the backing array between
+				// all paths that extend the same cached path.
+				cachedPath := chain.PathsCache[ruleToCheck]
+				newPath := make([]Rule, 0, len(cachedPath)+1)
+				newPath = append(newPath, cachedPath...)
+				newPath = append(newPath, nextRule)
 
 				// This path is already discovered.
 				p := chain.SearchPathForRule(newRule)
